@@ -48,6 +48,14 @@ def plan(tier, seed):
         shards.append({"kind": "lock_rand", "n_lock": 4000 * mult, "n_rand": 6000 * mult})
         shards.append({"kind": "lock_rand", "n_lock": 1000 * mult, "n_rand": 9000 * mult})
     shards.append({"kind": "suite", "label": "suite"})
+    # the same signature-bearing workload with the pure-Python arithmetic backend, and with other networks created first
+    shards.append({"kind": "p2pk", "n": 120 if q else 2500, "env": {"PYCOIN_NATIVE": "none"}, "label": "p2pk-pure"})
+    shards.append({"kind": "multisig", "n": 40 if q else 800, "env": {"PYCOIN_NATIVE": "none"}, "label": "multisig-pure"})
+    for k, s in enumerate(shards):
+        if k % 3 == 1:
+            s["other_networks_first"] = True
+        elif k % 3 == 2:
+            s["other_networks_after"] = True
     return shards
 
 
@@ -63,11 +71,21 @@ def selftest(rec):
 
 # ---------------------------------------------------------------------------------------------------
 
+OTHER_NETS = ["ltc", "bch", "btg", "grs", "doge", "xtn", "dash"]
+
+
 class Py:
     """thin driver of the real pycoin API"""
 
-    def __init__(self):
+    def __init__(self, others="none"):
+        import importlib
+        if others == "first":        # other coins' networks exist in the process before Bitcoin's is created
+            for n in OTHER_NETS:
+                importlib.import_module("pycoin.symbols." + n)
         from pycoin.symbols.btc import network
+        if others == "after":
+            for n in OTHER_NETS:
+                importlib.import_module("pycoin.symbols." + n)
         from pycoin.coins.SolutionChecker import ScriptError
         from pycoin.satoshi import errno
         self.network = network
@@ -214,9 +232,9 @@ def classify(case, ref_code, py_code, ref_trace, py_trace, ref_stack=None, py_st
 
 
 class Monitor:
-    def __init__(self, rec):
+    def __init__(self, rec, others="none"):
         self.rec = rec
-        self.py = Py()
+        self.py = Py(others)
         self.crash_on_invalid = {}
 
     def py_trace(self, case):
@@ -269,7 +287,9 @@ def run_shard(spec, rec):
         suite.run_suite(spec, rec, ["suite.check_solution"], "suite.check_solution")
         return
     rec.require("Tx.check_solution")
-    mon = Monitor(rec)
+    mon = Monitor(rec, "first" if spec.get("other_networks_first") else "after" if spec.get("other_networks_after") else "none")
+    rec.ev("process_config:" + ("pure" if (spec.get("env") or {}).get("PYCOIN_NATIVE") == "none" else "default") +
+           ("+others_first" if spec.get("other_networks_first") else "+others_after" if spec.get("other_networks_after") else ""))
     rng = shard_rng(spec["seed"], PROPERTY, spec["tier"], spec["shard"])
     kind = spec["kind"]
     dd = data_dir(spec)
